@@ -2,7 +2,6 @@
 from __future__ import annotations
 
 import random
-import threading
 
 import numpy as np
 
@@ -493,226 +492,80 @@ def post_fault_checks(world, hist2, golden, ctx, stats) -> Violation | None:
 # PREEMPT
 
 
-class Decisions:
-    """Source of scheduling decisions: fresh (seeded PRNG) or replay (recorded list). Always records."""
-
-    def __init__(self, seed=None, quantum_mean=30, replay=None):
-        self.rng = random.Random(seed) if replay is None else None
-        self.qm = quantum_mean
-        self.replay = list(replay) if replay is not None else None
-        self.pos = 0
-        self.record: list[list[int]] = []
-
-    def next(self, runnable: list[int], midstep: dict[int, bool]) -> tuple[int, int]:
-        if self.replay is not None:
-            while self.pos < len(self.replay):
-                c, q = self.replay[self.pos]
-                self.pos += 1
-                if c in runnable:
-                    self.record.append([c, q])
-                    return c, q
-            c, q = runnable[0], 0
-            self.record.append([c, q])
-            return c, q
-        c = self.rng.choice(runnable)
-        r = self.rng.random()
-        if r < 0.15:
-            q = 0  # run to the end of the step
-        else:
-            q = 1 + int(self.rng.expovariate(1.0 / self.qm))
-        self.record.append([c, q])
-        return c, q
-
-
-class Client:
-    def __init__(self, cid):
-        self.cid = cid
-        self.steps: list[dict] = []
-        self.pos = 0
-        self.ctx = new_ctx()
-        self.ev = threading.Event()
-        self.midstep = False
-        self.done = False
-        self.thread = None
-        self.error = None
-        self.cur = None
-
-
-class _Stop(BaseException):
-    pass
-
-
 def preempt_run(case: dict, plan: dict, golden: list[dict], stats: dict):
     """Returns (violation | None, history of the pre-empted execution)."""
+    from . import sched
+
     world, _ = build_world(case)
-    stop = [False]
     cfg = case["cfg"]
     removed = set(case.get("removed", []))
     faults = {f["step"]: f for f in plan["faults"]}
     evicts = {e["step"]: e for e in plan["evict_mid"]}
     fps = set(plan["fp"])
-    dec = Decisions(plan["sched_seed"], plan.get("quantum_mean", 30), replay=plan.get("grants"))
-    clients = {c: Client(c) for c in range(cfg["n_clients"])}
+    dec = sched.Decisions(plan["sched_seed"], plan.get("quantum_mean", 30), replay=plan.get("grants"))
+    client_steps: dict[int, list] = {c: [] for c in range(cfg["n_clients"])}
     producer: dict[int, int] = {}
-    gold = {g["i"]: g for g in golden}
     for g in golden:
         if g["i"] in removed or g.get("status") == "removed":
             continue
-        clients[g["c"] % cfg["n_clients"]].steps.append(g)
+        client_steps[g["c"] % cfg["n_clients"]].append(g)
         for s in g.get("out", []):
             producer[s] = g["i"]
-    finished: set[int] = set()
-    results: dict[int, dict] = {}
-    sched_ev = threading.Event()
-    violation: list[Violation] = []
-    switches = stats["switch_sites"]
+    done_steps: set[int] = set()
+    results: dict[int, Outcome] = {}
 
-    def on_yield(ctx, site):
-        me = ctx_owner[id(ctx)]
-        switches[seam.site_str(site)] = switches.get(seam.site_str(site), 0) + 1
-        stats["preemptions"] += 1
-        me.midstep = True
-        sched_ev.set()
-        me.ev.wait()
-        me.ev.clear()
-        if stop[0]:
-            ctx.active = False
-            raise _Stop()
+    def exec_fn(g, ctx):
+        out = exec_step(world, g, ctx, fault=faults.get(g["i"]), fp=g["i"] in fps, evict=evicts.get(g["i"]))
+        if out.status == "ok":
+            store_outputs(world, g, out)
+        results[g["i"]] = out
+        done_steps.add(g["i"])
+        return out
 
-    ctx_owner = {}
-
-    def client_main(cl: Client):
-        seam.set_ctx(cl.ctx)
-        np.seterr(all="ignore")
-        try:
-            cl.ev.wait()
-            cl.ev.clear()
-            while cl.pos < len(cl.steps) and not stop[0]:
-                g = cl.steps[cl.pos]
-                cl.cur = g
-                out = exec_step(world, g, cl.ctx, fault=faults.get(g["i"]), fp=g["i"] in fps,
-                                evict=evicts.get(g["i"]))
-                cl.midstep = False
-                if stop[0]:
-                    break
-                if out.status == "ok":
-                    store_outputs(world, g, out)
-                results[g["i"]] = {"status": out.status, "ans": out.canon, "out": out}
-                finished.add(g["i"])
-                cl.pos += 1
-                cl.cur = None
-                if cl.pos >= len(cl.steps):
-                    cl.done = True
-                sched_ev.set()
-                if not cl.done:
-                    cl.ev.wait()
-                    cl.ev.clear()
-            cl.done = True
-            cl.cur = None
-            sched_ev.set()
-        except BaseException as e:  # noqa: BLE001
-            cl.error = e
-            cl.done = True
-            sched_ev.set()
-
-    for cl in clients.values():
-        cl.ctx.on_yield = on_yield
-        ctx_owner[id(cl.ctx)] = cl
-        if not cl.steps:
-            cl.done = True
-            continue
-        cl.thread = threading.Thread(target=client_main, args=(cl,), daemon=True, name=f"client-{cl.cid}")
-        cl.thread.start()
-
-    def ready(cl: Client) -> bool:
-        if cl.midstep:
-            return True
-        g = cl.steps[cl.pos]
+    def ready_fn(g, _finished) -> bool:
         for s in g["args"]:
-            if not world.has(s) and s in producer and producer[s] not in finished and producer[s] != g["i"]:
+            if not world.has(s) and s in producer and producer[s] not in done_steps and producer[s] != g["i"]:
                 return False
         return True
 
-    seam.set_ctx(None)
-    checked_upto = set()
+    def on_entry(now, inflight, cl):
+        slots = set()
+        for x in inflight:
+            slots.update(x.cur["args"])
+        for g, _out in now:
+            slots.update(g["args"])
+        culprit = now[0][0] if now else (cl.cur or cl.steps[min(cl.pos, len(cl.steps) - 1)])
+        v = o1_check(world, sorted(slots), culprit["i"], culprit["op"], full=bool(now))
+        if v is not None:
+            mid = [f"client{x.cid}:{x.cur['op']}@line{x.ctx.n}({seam.site_str(x.ctx.last_site)})"
+                   for x in inflight if x.midstep]
+            v["detail"] += f" [PREEMPT; suspended mid-operation: {mid}]" if mid else " [PREEMPT]"
+            return v
+        for g, out in now:
+            i = g["i"]
+            stats["steps"] += 1
+            stats["lines"] += out.lines
+            note_faults(stats, out, i in fps, i in faults, i in evicts)
+            if out.status == "ok" and g.get("status") == "ok":
+                v = compare_answers("O3", g["ans"], out.canon, g, stats, first=i)
+                if v is not None:
+                    v["detail"] = "under PREEMPT schedule: " + v["detail"]
+                    return v
+        return None
+
     try:
-        while True:
-            live = [cl for cl in clients.values() if not cl.done]
-            if not live:
-                break
-            runnable = [cl.cid for cl in live if ready(cl)]
-            if not runnable:
-                # producers removed/failed: let the first client run; exec_step will skip on void slots
-                runnable = [live[0].cid]
-            c, q = dec.next(sorted(runnable), {})
-            cl = clients[c]
-            cl.ctx.yield_at = (cl.ctx.n + q) if (q > 0 and cl.midstep) else (q if q > 0 else -1)
-            sched_ev.clear()
-            cl.ev.set()
-            if not sched_ev.wait(HARNESS_TIMEOUT):
-                raise RuntimeError("harness: client did not yield within the timeout")
-            if cl.error is not None:
-                raise RuntimeError(f"harness: client thread died: {cl.error!r}")
-            # ---- scheduler entry: invariants while other clients are suspended mid-operation
-            inflight = [x.cur for x in clients.values() if x.cur is not None]
-            slots = set()
-            for g in inflight:
-                slots.update(g["args"])
-            newly = [i for i in finished if i not in checked_upto]
-            for i in newly:
-                slots.update(gold[i]["args"])
-            culprit = gold[newly[0]] if newly else (cl.cur or cl.steps[min(cl.pos, len(cl.steps) - 1)])
-            v = o1_check(world, sorted(slots), culprit["i"], culprit["op"], full=bool(newly))
-            if v is not None:
-                mid = [f"client{x.cid}:{x.cur['op']}@line{x.ctx.n}({seam.site_str(x.ctx.last_site)})"
-                       for x in clients.values() if x.cur is not None and x.midstep]
-                v["detail"] += f" [PREEMPT; suspended mid-operation: {mid}]" if mid else " [PREEMPT]"
-                violation.append(v)
-                break
-            for i in newly:
-                checked_upto.add(i)
-                r, g = results[i], gold[i]
-                stats["steps"] += 1
-                stats["lines"] += r["out"].lines
-                note_faults(stats, r["out"], i in fps, i in faults, i in evicts)
-                if r["status"] == "ok" and g.get("status") == "ok":
-                    v = compare_answers("O3", g["ans"], r["ans"], g, stats, first=i)
-                    if v is not None:
-                        v["detail"] = "under PREEMPT schedule: " + v["detail"]
-                        violation.append(v)
-                        break
-            if violation:
-                break
+        violation = sched.run(client_steps, exec_fn, ready_fn, on_entry, dec, stats)
     finally:
         plan["grants_realised"] = dec.record
-        stop[0] = True
-        _drain(clients, sched_ev)
-        seam.set_ctx(None)
     hist2 = []
     for g in golden:
         h = {k: g[k] for k in ("i", "c", "op", "args", "p", "out", "mode") if k in g}
         r = results.get(g["i"])
-        h["status"] = r["status"] if r else "removed"
-        h["ans"] = r["ans"] if r else None
+        h["status"] = r.status if r else "removed"
+        h["ans"] = r.canon if r else None
         hist2.append(h)
-    if violation:
-        return violation[0], hist2
+    if violation is not None:
+        return violation, hist2
     ctx = new_ctx()
     seam.set_ctx(ctx)
     return post_fault_checks(world, hist2, golden, ctx, stats), hist2
-
-
-def _drain(clients, sched_ev) -> None:
-    """Wake every parked client with the stop flag set; each unwinds (mid-step) or exits (at a step boundary)."""
-    for cl in clients.values():
-        if cl.thread is None:
-            continue
-        for _ in range(200):
-            if not cl.thread.is_alive():
-                break
-            cl.ctx.yield_at = -1
-            cl.ctx.fault_at = -1
-            cl.ev.set()
-            cl.thread.join(0.05)
-        if cl.thread.is_alive():
-            raise RuntimeError("harness: client thread did not terminate")
